@@ -228,6 +228,11 @@ func (c *Ctx) execNext(fs *FState, x *ssa.Next) *FState {
 	tup := x.Type().(*types.Tuple)
 	zeroK = c.zero(tup.At(1).Type())
 	zeroV = c.zero(tup.At(2).Type())
+	if it, single := o.v.(*Iter); single && !it.isMap && it.pos < len(it.str.b) {
+		if b := it.str.b[it.pos]; upperBound(b) >= 0x80 {
+			return c.execNextStringFork(fs, x, p, o, it)
+		}
+	}
 	for _, al := range c.alts(o.v) {
 		it := al.v.(*Iter)
 		if !it.isMap {
@@ -237,8 +242,8 @@ func (c *Ctx) execNext(fs *FState, x *ssa.Next) *FState {
 			}
 			b := it.str.b[it.pos]
 			kv := tt.Const(64, uint64(it.pos))
-			if b.IsConst() && b.val < 0x80 {
-				outs = append(outs, outcome{al.g, tt.T, kv, tt.Const(32, b.val), &Iter{str: it.str, pos: it.pos + 1}})
+			if upperBound(b) < 0x80 {
+				outs = append(outs, outcome{al.g, tt.T, kv, tt.ZExt(32, b), &Iter{str: it.str, pos: it.pos + 1}})
 				continue
 			}
 			ascii := tt.Bin(OpUlt, b, tt.Const(8, 0x80))
@@ -497,4 +502,37 @@ func (c *Ctx) decodeRune(bs []*Term) (*Term, [5]*Term) {
 type decodeRes struct {
 	r     *Term
 	sizes [5]*Term
+}
+
+// execNextStringFork: the iterator has a definite position and the next byte is symbolic: fork the frame state into
+// "ASCII byte" and one state per multi-byte width, so that every continuing state keeps a definite position.
+func (c *Ctx) execNextStringFork(fs *FState, x *ssa.Next, p *Ptr, o *Obj, it *Iter) *FState {
+	tt := c.tt
+	b := it.str.b[it.pos]
+	kv := tt.Const(64, uint64(it.pos))
+	ascii := tt.Bin(OpUlt, b, tt.Const(8, 0x80))
+	end := it.pos + 4
+	if end > len(it.str.b) {
+		end = len(it.str.b)
+	}
+	r, sizes := c.decodeRune(it.str.b[it.pos:end])
+	mk := func(f *FState, g *Term, rv *Term, np int) {
+		f.st.pc = append(f.st.pc, g)
+		f.st.heap.set(p.obj, &Obj{v: &Iter{str: it.str, pos: np}, label: "iter", birth: o.birth})
+		c.setReg(f, x, &Tuple{v: []Value{tt.T, kv, rv}})
+	}
+	na := tt.Not(ascii)
+	naFeasible := c.feasible(fs.st, na)
+	for k := 1; k <= 4 && naFeasible; k++ {
+		g := tt.And(na, sizes[k])
+		if g.IsFalse() {
+			continue
+		}
+		f := fs.fork()
+		mk(f, g, r, it.pos+k)
+		f.spec = true
+		c.forks = append(c.forks, f)
+	}
+	mk(fs, ascii, tt.ZExt(32, b), it.pos+1)
+	return fs
 }
